@@ -90,7 +90,7 @@ class Ctx:
                                function=v.get("fn"), path=v.get("path"), tier=self.tier,
                                facts_config=self.prog.config if self.prog else None), f, indent=1)
             lines.append("VIOLATION property=%s replay=%s" % (self.prop, rp))
-            lines.append("  rule=%s instance=%s at %s: %s" % (v["rule"], v["instance"], v.get("loc") or "-", v["detail"]))
+            lines.append(("  rule=%s instance=%s at %s: %s" % (v["rule"], v["instance"], v.get("loc") or "-", v["detail"]))[:700])
         n_ob = len(self.obs)
         n_dis = len([o for o in self.obs if o["status"] in ("discharged", "justified")])
         per_rule = {}
